@@ -30,6 +30,10 @@ def run(project, rep):
     rep.run(S.s_r4_contiguity, schema, rep)
     rep.run(S.s_r5_listkinds, schema, rep)
     rep.run(S.s_r6d_route_independent_constraints, schema, rep)
+    rep.run(S.s_r10_per_class_tables, schema, rep)
+    from .. import rules_construct as FC
+    rep.rule("W-R11", "what was written is read: a child whose tag the reader found in the spec is recorded on every path (the recorded-children clause of F-R4) - an empty aggregate the writer emitted is not skipped")
+    rep.run_only(("F-R4",), FC.f_r4_order, schema, rep, constructs=("update_args:declared-children-always-recorded",))
     rep.run(W.w_r2_leaf_predicate, project, rep)
     rep.run(W.l_r2_escaping, project, rep)
     rep.run(W.l_r2_escaping, project, rep, rule="W-R3", reader_decodable=True)
